@@ -16,7 +16,7 @@ RULE = ("explicit-state breadth-first search from the empty sandbox over histori
         "C hostile schema/operation/tag names, D hostile title}, meta in {none, poetry}, overwrite in {no, yes}, location in "
         "{default-from-title in cwd, --output-path}) and user edits (add a file at the project root, at the package root, modify a "
         "generated file), also with generate_all_tags and with post hooks that leave a trace, through the real typer CLI; states = full content of the sandbox + flavours generated per directory, "
-        "deduplicated on a canonical hash; every transition audited with sys.addaudithook; depth 4 (quick) / 5 (thorough)")
+        "deduplicated on a canonical hash; every transition audited with sys.addaudithook; quick: depth 4; thorough: depth 4 over the full command set (5 documents, both flavours, both locations) and depth 5 over a 15-command core set")
 FLOOR = 0.3
 ASSUMPTIONS = ["audit hooks see every open-for-write/mkdir/remove/rename/rmtree", "typer's CliRunner reproduces the command line behaviour"]
 
@@ -329,8 +329,21 @@ def run_case(p):
 
 
 def drive(ctx):
-    depth = 4 if ctx.tier == "quick" else 5
-    cmds = commands(ctx.tier)
+    """quick: depth 4 over the quick command set.  thorough: depth 4 over the full command set, then depth 5 over a core command set
+    (the full set at depth 5 does not fit in memory: every state holds the whole sandbox)."""
+    if ctx.tier == "quick":
+        return _bfs(ctx, commands("quick"), 4)
+    c1, r1, i1 = _bfs(ctx, commands("thorough"), 4)
+    core = [c for c in commands("thorough") if c[0] == "user" or (c[1] in ("A", "B", "C") and c[2] == "none" and c[4] == "default" and len(c) == 5)
+            or (c[1] == "A" and c[2] == "poetry" and c[4] == "default" and len(c) == 5) or (len(c) > 5 and c[1] in ("A", "F") and c[2] == "none" and c[4] == "default")]
+    c2, r2, i2 = _bfs(ctx, core, 5)
+    info = {"states": i1["states"] + i2["states"], "transitions": i1["transitions"] + i2["transitions"], "traces": i1["traces"] + i2["traces"], "exhaustive": True,
+            "bounds": {"depth_full_command_set": 4, "commands_full": i1["bounds"]["commands"], "depth_core_command_set": 5, "commands_core": len(core)},
+            "extra": {"frontier_at_bound": i1["extra"]["frontier_at_bound"] + i2["extra"]["frontier_at_bound"]}}
+    return c1 + c2, r1 + r2, info
+
+
+def _bfs(ctx, cmds, depth):
     init_key = state_key(INIT, {})
     seen = {init_key: []}
     frontier = [(INIT, {}, [])]
